@@ -7,7 +7,7 @@ export const id = 'C19';
 
 export function* generate({ tier, seed }) {
   const rng = mulberry32(seed * 715225739 + 61);
-  const n = tier === 'quick' ? 2500 : 40000;
+  const n = tier === 'quick' ? 10000 : 250000;
   for (let i = 0; i < n; i++) {
     resetUid();
     const k = 1 + rng.int(4);
@@ -38,7 +38,7 @@ export function* generate({ tier, seed }) {
 }
 
 function* sharedBaseModules(rng, tier) {
-  const n = tier === 'quick' ? 300 : 4000;
+  const n = tier === 'quick' ? 2000 : 40000;
   const q = (x) => JSON.stringify(x);
   for (let i = 0; i < n; i++) {
     const pool = rng.shuffle(EVENT_NAMES);
@@ -116,7 +116,7 @@ export async function check(group, records) {
 
 export function meta({ tier }) {
   return {
-    rule: `Event-name sets (1-4 of 8 names incl. ':' and '-') x 10 encodings (function type, alias of function type, union of function types, call-signature literal / interface / exported interface, extends chain over three interfaces, property syntax, intersection of function type and call signatures, duplicated signatures) with literal unions inline or through 1-2 alias hops x declaration order (before / after / mixed) x module / local scope x second-parameter form (identifier, object pattern, array pattern with SetupContext<E>; absent, unannotated, or annotated with another type => no emits expected) x arrow / function setup. ${tier === 'quick' ? 2500 : 40000} cases. The emits option received by the mock defineComponent is compared as a set.`,
+    rule: `Event-name sets (1-4 of 8 names incl. ':' and '-') x 10 encodings (function type, alias of function type, union of function types, call-signature literal / interface / exported interface, extends chain over three interfaces, property syntax, intersection of function type and call signatures, duplicated signatures) with literal unions inline or through 1-2 alias hops x declaration order (before / after / mixed) x module / local scope x second-parameter form (identifier, object pattern, array pattern with SetupContext<E>; absent, unannotated, or annotated with another type => no emits expected) x arrow / function setup. ${tier === 'quick' ? 10000 : 250000} cases (+ shared-base multi-component modules). The emits option received by the mock defineComponent is compared as a set.`,
     assumptions: ['duplicates in the emitted array are tolerated (compared as a set)'],
   };
 }
